@@ -17,6 +17,32 @@ Proof. intros H. unfold angular_to_hertz, hertz_to_angular. pose proof PI_RGT_0.
 Lemma nyquist_l sr : sr <> 0 -> hertz_to_angular (sr / 2) sr = PI.
 Proof. intros H. unfold hertz_to_angular. field. assumption. Qed.
 
+(* anchors and order: the pair is not merely "some" pair of mutual inverses - the Nyquist frequency is pi rad/sample,
+   one full turn is the sampling rate, and both maps are linear and increasing for a positive rate *)
+Lemma angular_pi_l sr : angular_to_hertz PI sr = sr / 2.
+Proof. unfold angular_to_hertz. pose proof PI_RGT_0. field. lra. Qed.
+
+Lemma angular_2pi_l sr : angular_to_hertz (2 * PI) sr = sr.
+Proof. unfold angular_to_hertz. pose proof PI_RGT_0. field. lra. Qed.
+
+Lemma hertz_to_angular_incr_l a b sr : 0 < sr -> a < b -> hertz_to_angular a sr < hertz_to_angular b sr.
+Proof.
+  intros Hsr Hab. unfold hertz_to_angular. unfold Rdiv.
+  apply Rmult_lt_compat_r; [apply Rinv_0_lt_compat; exact Hsr|].
+  pose proof PI_RGT_0. nra.
+Qed.
+
+Lemma angular_to_hertz_incr_l a b sr : 0 < sr -> a < b -> angular_to_hertz a sr < angular_to_hertz b sr.
+Proof.
+  intros Hsr Hab. unfold angular_to_hertz. unfold Rdiv.
+  apply Rmult_lt_compat_r; [apply Rinv_0_lt_compat; pose proof PI_RGT_0; lra|].
+  nra.
+Qed.
+
+Lemma hertz_to_angular_linear_l a b c sr : sr <> 0 ->
+  hertz_to_angular (c * a + b) sr = c * hertz_to_angular a sr + hertz_to_angular b sr.
+Proof. intros H. unfold hertz_to_angular. field. assumption. Qed.
+
 (** * A readable form of the generated gauss_quant *)
 Definition oeN (y : R) : R :=
   (((113410552537 / 2500000000000000 * y + 40846242049 / 2000000000000) * y
